@@ -1048,14 +1048,14 @@ def check_ports(ctx, exe, d, n_big, n_custom, n_write):
                                                ",".join(port_op_model(o) for o in ops)))
     # the extracted model walks unary offsets: ~1-3 s per 8 KB stream, so only a subset of the big streams goes through it
     # (all of the small custom-port ones do); the SPEC judges every case
-    n_model_big = 6 if not ctx.thorough else 150
+    n_model_big = 6 if not ctx.thorough else 100
     with_model = [n for n, c in enumerate(cases) if c[0] == "custom" or len(c[1]) < 200][:]
     with_model = sorted(set(with_model) | set([n for n, c in enumerate(cases) if c[0] != "custom"][:n_model_big]))
     mo_sub = ctx.run_model(exe, [mlines[n] for n in with_model])
     mo = [None] * len(cases)
     for n, m in zip(with_model, mo_sub):
         mo[n] = m
-    res = scm.run_cases(d, exprs, prelude_extra=prelude, imports=IMPORTS, chunk=24, timeout=120)
+    res = scm.run_cases(d, exprs, prelude_extra=prelude, imports=IMPORTS, chunk=(24 if not ctx.thorough else 100), timeout=(120 if not ctx.thorough else 400))
     reported, nb = {}, 0
     for n, (kind, cs, sched, hot, ops, exp) in enumerate(cases):
         got = parse_fields(res[n]) if res[n] and not res[n].startswith(("TIMEOUT", "CRASH", "ERR")) else None
@@ -1760,7 +1760,7 @@ def run(ctx):
     lap("outer")
     check_sweep(ctx, d)
     lap("sweep")
-    check_ports(ctx, exe, d, *( (48, 450, 20) if not ctx.thorough else (1500, 30000, 400) ))
+    check_ports(ctx, exe, d, *( (48, 450, 20) if not ctx.thorough else (1000, 20000, 300) ))
     lap("ports")
     check_illformed_ports(ctx, exe, d, 24 if not ctx.thorough else 1200)
     lap("badports")
